@@ -9,6 +9,7 @@ import (
 	"fmt"
 	"os"
 	"os/exec"
+	"path"
 	"path/filepath"
 	"runtime"
 	"sort"
@@ -456,6 +457,13 @@ func report(ck *Check, tier string, seed int64, results []*Result, start time.Ti
 func matchKnown(known map[string]Finding, sig string) (Finding, bool) {
 	if f, ok := known[sig]; ok {
 		return f, true
+	}
+	for pat, f := range known {
+		if strings.Contains(pat, "*") {
+			if ok, _ := path.Match(pat, sig); ok {
+				return f, true
+			}
+		}
 	}
 	return Finding{}, false
 }
